@@ -50,10 +50,13 @@ def _one_mutant(args):
         a = subprocess.run(["patch", "-p1", "-s", "-i", patch], cwd=os.path.join(d, "repo"), capture_output=True, text=True)
         if a.returncode != 0:
             return patch, pid, "patch-failed", a.stdout + a.stderr
-        t = subprocess.run([sys.executable, "-m", "pytest", "-q", "-p", "no:cacheprovider", "-x", "websocket/tests"],
-                           cwd=os.path.join(d, "repo"), capture_output=True, text=True, timeout=600,
-                           env=dict(os.environ, PYTHONPATH=os.path.join(d, "repo")))
-        tests_ok = t.returncode == 0
+        try:
+            t = subprocess.run([sys.executable, "-m", "pytest", "-q", "-p", "no:cacheprovider", "-x", "websocket/tests"],
+                               cwd=os.path.join(d, "repo"), capture_output=True, text=True, timeout=180,
+                               env=dict(os.environ, PYTHONPATH=os.path.join(d, "repo")))
+            tests_ok = t.returncode == 0
+        except subprocess.TimeoutExpired:
+            tests_ok = False  # the baseline suite hangs with this patch
         env = dict(os.environ, VERIF_REPO=os.path.join(d, "repo"), VERIF_OUT=os.path.join(d, "out"), VERIF_JOBS=str(jobs))
         c = subprocess.run([os.path.join(verif, "check"), pid, "quick"], capture_output=True, text=True, env=env, timeout=1500)
         clauses = sorted(set(l.split("clause=")[1].split()[0] for l in c.stdout.splitlines() if "clause=" in l and "KNOWN" not in l))
